@@ -180,7 +180,8 @@ def getJSONInt32 (v : Item) : Except I32Err Int :=
     | .error _ =>
       match Decimal.jnumFloat64 s with
       | .ok f => if f.isInf || f.isNaN then .error .verbose else range (F64.toInt64 f)
-      | .error _ => .error .invalid
+      | .error .range => .error .verbose
+      | .error .syntax => .error .invalid
   | _ => .error .verbose
 
 /-! ## unary callbacks -/
